@@ -341,15 +341,15 @@ func (ex *Exec) callFunc(fr *Frame, fn *ssa.Function, args []Value, caps []Value
 	if ic, ok := intercepts[name]; ok {
 		return ic(ex, fr, args, site)
 	}
+	if fn.Name() == "init" && fn.Signature.Recv() == nil && len(args) == 0 {
+		return nil // dependency initializers are run lazily
+	}
 	if fn.Blocks == nil {
 		// generic catch-alls by package
 		if ic := packageIntercept(fn); ic != nil {
 			return ic(ex, fr, args, site)
 		}
 		panic(ex.unsupported("external function without rule: %s", name))
-	}
-	if fn.Name() == "init" && fn.Signature.Recv() == nil && len(args) == 0 {
-		return nil // dependency initializers are run lazily
 	}
 	return ex.runFunc(fn, args, caps, site)
 }
